@@ -1074,6 +1074,13 @@ class C13(PropOracle):
                 self._check_refusal(w, vp, a)
             else:
                 c = read_json(w.rootp + "cluster_config.json") or {}
+                mine = [f for f in (w.data.get("faults") or []) if f[0] == vp.name]
+                busy = any(v.status == "ready" and v is not vp and v.pending is not None and v.pending.kind != "start" for v in w.vprocs)
+                if (c.get("submitter") is not None and not busy and not os.path.exists(w.rootp + "cluster_config.json.lock")
+                        and all(f[1].startswith("cmd:") for f in mine)):
+                    # (a failing scheduler command is a clean failure: nothing prevents the command from giving the role back)
+                    self.v(w, f"resubmit-jobs failed ({a['code']}) and left the submitter role recorded ({c.get('submitter')!r}) while no process is running: "
+                              "every later resubmit-jobs / try-submit-jobs is refused", "resubmit-left-submitter-role")
                 if c.get("is_complete") and full_rows(w) == a["rows"]:
                     a["aborted"] = True  # gave up before changing anything (e.g. somebody else is submitter)
                     if a["idle"] and not any(f[0] == vp.name for f in (w.data.get("faults") or [])):
